@@ -261,3 +261,17 @@ CHECKS["C17"]["text"] += (" Generated models with anonymous Constant nodes and w
                           "same Run alone.")
 CHECKS["C18"]["text"] += (" Opset versions beyond 32 bits (w*2^31+v) and unknown-operator nodes whose inputs do not resolve are part of the "
                           "structured space.")
+
+# ---- round 10
+for _pid in ("C03", "C04", "C05", "C06", "C07", "C08", "C09", "C10", "C11"):
+    CHECKS[_pid]["text"] += (" One operator instance is also applied while the operand objects hold other values and again after the caller has refilled "
+                             "the same objects; in the re-use pass, cases of equal input types and shapes follow each other on one instance and on the "
+                             "same tensor objects, and a second instance sees the cases of every element type.")
+CHECKS["C06"]["text"] += (" Tiling law along the batch axis (Outcome!TileLawAx): a 2-sample batch repeated several thousand times. sequence_lens has its "
+                          "ONNX meaning in the specification: refused, or honoured with that meaning.")
+CHECKS["C06"]["technique"] += "; tiling law along the batch axis"
+CHECKS["C12"]["text"] += " Long payloads are also loaded from a Deflate-compressed and from a stored zip archive entry (NewModelFromZipFile)."
+CHECKS["C13"]["text"] += " Between two calls the caller may give the same tensor object another shape in place (Interp!CallerReshape)."
+CHECKS["C17"]["text"] += (" Rank-0 graphs are run about 10^6 times per recording from 16 goroutines (a temporary tensor reclaimed by the garbage collector "
+                          "while its memory is read shows up there). A deviation of a free-running stage is a violation only if it recurs in one of up to "
+                          "three further recordings (the schedule cannot be replayed); race-detector reports and runtime faults are conclusive at once.")
